@@ -75,6 +75,7 @@ var props = map[string]*propDef{
 			"OpenTelemetry span contexts are invalid (go.opentelemetry.io stubbed): the trace section is always the single byte 0",
 		}, baseAssumptions...),
 		Harnesses: []harnessDef{
+			{Name: "proto.VerifC17Span"},
 			{Name: "proto.VerifC17UVarInt"},
 			{Name: "proto.VerifC17Fixed", Quick: map[string]int{"maxstr": 2}, Thorough: map[string]int{"maxstr": 3}},
 			{Name: "proto.VerifC17Progress"},
@@ -94,6 +95,7 @@ var props = map[string]*propDef{
 			"oracle = the values the harness appended (plain Go slices) and the bytes of a second encoding into an empty buffer",
 		}, baseAssumptions...),
 		Harnesses: []harnessDef{
+			{Name: "proto.VerifC01DecimalInfer"},
 			{Must: mustC01, Name: "proto.VerifC01GenLeaves", Quick: map[string]int{"maxrows": 2}, Thorough: map[string]int{"maxrows": 4}},
 			{Must: mustC01, Name: "proto.VerifC01PlainLeaves", Quick: map[string]int{"maxrows": 2, "maxstr": 2}, Thorough: map[string]int{"maxrows": 3, "maxstr": 2}},
 			{Must: mustC01, Name: "proto.VerifC01Composites", Quick: map[string]int{"maxrows": 2, "maxstr": 1, "maxinner": 2}, Thorough: map[string]int{"maxrows": 3, "maxstr": 2, "maxinner": 2}},
@@ -153,6 +155,7 @@ var props = map[string]*propDef{
 			"protocol revision fixed at 54460 for the history harness",
 		}, baseAssumptions...),
 		Harnesses: []harnessDef{
+			{Name: "proto.VerifC16LowCardinalityWidths", Quick: map[string]int{"maxsteps": 3}, Thorough: map[string]int{"maxsteps": 4}},
 			{Name: "proto.VerifC16Composites", Must: mustC16, Quick: map[string]int{"maxsteps": 3, "minstr": 1, "maxstr": 1, "mininner": 1, "maxinner": 1}, Thorough: map[string]int{"maxsteps": 4, "minstr": 1, "maxstr": 1, "mininner": 1, "maxinner": 1}},
 			{Name: "proto.VerifC16Composites", Must: mustC16, OnlyTier: "thorough", Thorough: map[string]int{"maxsteps": 3, "minstr": 0, "maxstr": 1, "mininner": 0, "maxinner": 1}},
 			{Name: "proto.VerifC16PlainLeaves", Must: mustC16, Quick: map[string]int{"maxsteps": 3, "minstr": 1, "maxstr": 1, "minprec": 3, "maxprec": 3, "minscale": 3, "maxscale": 3}, Thorough: map[string]int{"maxsteps": 4, "minstr": 0, "maxstr": 1}},
